@@ -1,1 +1,563 @@
-//! C03 harnesses (see /verif/tools/HARNESS_GUIDE.md).
+//! C03 — rolling extrema, arg-extrema, rank and min-max normalisation are exact per window.
+//!
+//! Engine K part (exact / integer shaped): `ts_vmin`, `ts_vmax`, `ts_vargmin`, `ts_vargmax`,
+//! `ts_vrank` (pct x rev symbolic) and `ts_vminmaxnorm`. `ts_vzscore` is Engine M's.
+//!
+//! Scheme: a symbolic key array `k: [Option<i32>; N]` (concrete N) is turned into the input
+//! container (`Vec<Option<i32>>`, `Vec<i32>` — keys all valid —, `Vec<f64>` — null key = NaN, valid
+//! key = small integer as f64); the kernel runs once with symbolic window `w in 1..=N+2` and
+//! symbolic `min_periods`; every output position is compared with a from-scratch scan of the
+//! positions `max(0,i-w+1)..=i` of the key array written as plain loops (`scan`).
+//!
+//! `min_periods` domain (DESIGN 5.3): explicit `Some(m)` with `m in 0..=w` at every length (the
+//! extrema/rank kernels do not clamp it, `ts_vminmaxnorm` clamps it to `w`, identical on this
+//! domain); omitted (`None`, meaning floor(w/2)) only when `N >= w` for the extrema/rank family
+//! (they derive the default from `min(len, w)`); at every length for `ts_vminmaxnorm` (it derives
+//! the default from the requested `w`).
+//!
+//! Null law (this is also C05's null-mask law for this family, folded in here): output i is null
+//!   * min/max/argmin/argmax: iff valid count of the window < effective min_periods, or the window
+//!     has no valid element;
+//!   * rank: iff count < effective min_periods or x[i] is null;
+//!   * minmaxnorm: iff count < effective min_periods, or x[i] is null, or max == min.
+//!
+//! Isolated defects of the pinned tree (kept failing, everything else stays visible):
+//!   `c03_vargmin_allnull_mp0_*`, `c03_vargmax_allnull_mp0_*` — an all-null window with effective
+//!       min_periods 0 yields a position instead of null (the main arg harnesses skip exactly the
+//!       case "no valid element and effective min_periods == 0");
+//!   `c03_minmaxnorm_oa_fullrange_*` — `(x - min)` / `(max - min)` are computed in the element type
+//!       (i32) and overflow for values further apart than i32::MAX (the main minmaxnorm harnesses
+//!       bound |x| <= 2^29 + N).
+use tea_core::prelude::*;
+use tea_rolling::*;
+
+use crate::util::*;
+
+// ---------------------------------------------------------------------------------------------
+// inputs
+// ---------------------------------------------------------------------------------------------
+
+/// value alphabets of the key array
+#[derive(Clone, Copy, PartialEq)]
+pub enum Alpha {
+    /// 0..=max(2, N-1): many ties, still room for a strictly monotone run of length N
+    Small,
+    /// any i32
+    Any,
+    /// large magnitudes with ties: b + 0..=max(2, N-1) with one symbolic offset |b| <= 2^29 shared by all
+    /// elements (minmaxnorm: differences cannot overflow i32, and the quotient stays decidable for CBMC —
+    /// with independent 30-bit values the two f64 division circuits do not come back within 600 s)
+    Wide,
+}
+
+/// symbolic keys; `nullable == false` forces every key valid
+pub fn keys<const N: usize>(alpha: Alpha, nullable: bool) -> [Option<i32>; N] {
+    let mut k: [Option<i32>; N] = kani::any();
+    let hi: i32 = if N > 3 { N as i32 - 1 } else { 2 };
+    // Wide: one symbolic offset shared by all elements
+    let base: i32 = kani::any();
+    kani::assume(base >= -(1 << 29) && base <= (1 << 29));
+    let mut i = 0;
+    while i < N {
+        match k[i] {
+            Some(v) => match alpha {
+                Alpha::Small => kani::assume(v >= 0 && v <= hi),
+                Alpha::Any => {},
+                Alpha::Wide => {
+                    kani::assume(v >= 0 && v <= hi);
+                    k[i] = Some(base + v);
+                },
+            },
+            None => kani::assume(nullable),
+        }
+        i += 1;
+    }
+    k
+}
+
+/// element types of the input container
+pub trait In: Copy + IsNone {
+    fn from_key(k: Option<i32>) -> Self;
+}
+impl In for Option<i32> {
+    fn from_key(k: Option<i32>) -> Self {
+        k
+    }
+}
+impl In for i32 {
+    fn from_key(k: Option<i32>) -> Self {
+        match k {
+            Some(v) => v,
+            None => 0, // excluded by `nullable == false`
+        }
+    }
+}
+impl In for f64 {
+    fn from_key(k: Option<i32>) -> Self {
+        match k {
+            Some(v) => v as f64,
+            None => f64::NAN,
+        }
+    }
+}
+
+pub fn input<T: In, const N: usize>(k: &[Option<i32>; N]) -> Vec<T> {
+    let mut a = [T::from_key(None); N];
+    let mut i = 0;
+    while i < N {
+        a[i] = T::from_key(k[i]);
+        i += 1;
+    }
+    a.to_vec()
+}
+
+/// element types of the output container
+pub trait Out: Copy {
+    fn null(&self) -> bool;
+    /// non-null and equal to the integer `v`
+    fn is_int(&self, v: i32) -> bool;
+    /// non-null and equal to the float `v` (v is never NaN)
+    fn is_f(&self, v: f64) -> bool;
+}
+impl Out for f64 {
+    fn null(&self) -> bool {
+        self.is_nan()
+    }
+    fn is_int(&self, v: i32) -> bool {
+        *self == v as f64
+    }
+    fn is_f(&self, v: f64) -> bool {
+        *self == v
+    }
+}
+impl Out for Option<f64> {
+    fn null(&self) -> bool {
+        self.is_none()
+    }
+    fn is_int(&self, v: i32) -> bool {
+        match self {
+            Some(x) => *x == v as f64,
+            None => false,
+        }
+    }
+    fn is_f(&self, v: f64) -> bool {
+        match self {
+            Some(x) => *x == v,
+            None => false,
+        }
+    }
+}
+impl Out for Option<i32> {
+    fn null(&self) -> bool {
+        self.is_none()
+    }
+    fn is_int(&self, v: i32) -> bool {
+        *self == Some(v)
+    }
+    fn is_f(&self, v: f64) -> bool {
+        match self {
+            Some(x) => *x as f64 == v,
+            None => false,
+        }
+    }
+}
+
+// ---------------------------------------------------------------------------------------------
+// parameters
+// ---------------------------------------------------------------------------------------------
+
+#[derive(Clone, Copy)]
+pub struct Par {
+    pub w: usize,
+    pub mp: Option<usize>,
+    /// effective min_periods per the statement: the explicit value, else floor(w/2)
+    pub eff: usize,
+}
+
+/// `omitted_needs_full`: omitted min_periods only for N >= w (extrema/rank family, DESIGN 5.3)
+pub fn params<const N: usize>(omitted_needs_full: bool) -> Par {
+    let w: usize = kani::any();
+    kani::assume(w >= 1 && w <= N + 2);
+    let explicit: bool = kani::any();
+    let m: usize = kani::any();
+    kani::assume(m <= w);
+    if !explicit && omitted_needs_full {
+        kani::assume(N >= w);
+    }
+    let mp = if explicit { Some(m) } else { None };
+    let eff = if explicit { m } else { w / 2 };
+    Par { w, mp, eff }
+}
+
+// ---------------------------------------------------------------------------------------------
+// oracle: from-scratch scan of one window
+// ---------------------------------------------------------------------------------------------
+
+#[derive(Clone, Copy)]
+pub struct Win {
+    pub start: usize,
+    /// number of valid elements
+    pub cnt: usize,
+    pub min: i32,
+    pub max: i32,
+    /// most recent position holding the minimum / maximum (meaningful when cnt > 0)
+    pub pmin: usize,
+    pub pmax: usize,
+    /// valid elements strictly below / equal to (including itself) the current element x[i]
+    pub less: usize,
+    pub eq: usize,
+}
+
+pub fn scan<const N: usize>(k: &[Option<i32>; N], w: usize, i: usize) -> Win {
+    let start = if i + 1 >= w { i + 1 - w } else { 0 };
+    let mut r = Win { start, cnt: 0, min: 0, max: 0, pmin: 0, pmax: 0, less: 0, eq: 0 };
+    // concrete loop bounds and concrete indices (cheap for CBMC); membership in the window is the predicate j >= start
+    let mut j = 0;
+    while j <= i {
+        if j + w > i {
+            if let Some(v) = k[j] {
+                if r.cnt == 0 || v <= r.min {
+                    r.min = v;
+                    r.pmin = j;
+                }
+                if r.cnt == 0 || v >= r.max {
+                    r.max = v;
+                    r.pmax = j;
+                }
+                r.cnt += 1;
+                if let Some(c) = k[i] {
+                    if v < c {
+                        r.less += 1;
+                    } else if v == c {
+                        r.eq += 1;
+                    }
+                }
+            }
+        }
+        j += 1;
+    }
+    r
+}
+
+pub fn scan_all<const N: usize>(k: &[Option<i32>; N], w: usize) -> [Win; N] {
+    let mut a = [Win { start: 0, cnt: 0, min: 0, max: 0, pmin: 0, pmax: 0, less: 0, eq: 0 }; N];
+    let mut i = 0;
+    while i < N {
+        a[i] = scan(k, w, i);
+        i += 1;
+    }
+    a
+}
+
+// ---------------------------------------------------------------------------------------------
+// vacuity witnesses (flags are set in generic code, `kani::cover!` is emitted by the harness)
+// ---------------------------------------------------------------------------------------------
+
+#[derive(Clone, Copy, Default)]
+pub struct Cov {
+    /// the extreme of the previous window sits at the position that expires and x[i] is null
+    pub expire_min_null: bool,
+    pub expire_max_null: bool,
+    /// a window without any valid element
+    pub all_null: bool,
+    /// x[i-1] == x[i], both valid
+    pub tie_consec: bool,
+    /// strictly increasing / decreasing run over the whole series with w < N (every step expires the min / max)
+    pub mono_inc: bool,
+    pub mono_dec: bool,
+    pub null_out: bool,
+    pub val_out: bool,
+    /// omitted min_periods reached
+    pub omitted: bool,
+    /// rank variants for which a non-null rank was compared
+    pub asc_abs: bool,
+    pub asc_pct: bool,
+    pub desc_abs: bool,
+    pub desc_pct: bool,
+    pub rank_tie: bool,
+    pub spread0: bool,
+}
+
+impl Cov {
+    /// union of the witnesses of two runs (harnesses that cover two lengths)
+    pub fn or(self, o: Cov) -> Cov {
+        Cov {
+            expire_min_null: self.expire_min_null || o.expire_min_null,
+            expire_max_null: self.expire_max_null || o.expire_max_null,
+            all_null: self.all_null || o.all_null,
+            tie_consec: self.tie_consec || o.tie_consec,
+            mono_inc: self.mono_inc || o.mono_inc,
+            mono_dec: self.mono_dec || o.mono_dec,
+            null_out: self.null_out || o.null_out,
+            val_out: self.val_out || o.val_out,
+            omitted: self.omitted || o.omitted,
+            asc_abs: self.asc_abs || o.asc_abs,
+            asc_pct: self.asc_pct || o.asc_pct,
+            desc_abs: self.desc_abs || o.desc_abs,
+            desc_pct: self.desc_pct || o.desc_pct,
+            rank_tie: self.rank_tie || o.rank_tie,
+            spread0: self.spread0 || o.spread0,
+        }
+    }
+}
+
+pub fn witnesses<const N: usize>(k: &[Option<i32>; N], p: &Par, ws: &[Win; N], c: &mut Cov) {
+    c.omitted = p.mp.is_none();
+    let mut inc = N >= 2 && p.w < N;
+    let mut dec = inc;
+    let mut i = 0;
+    while i < N {
+        let wi = ws[i];
+        if wi.cnt == 0 {
+            c.all_null = true;
+        }
+        if i >= 1 {
+            if let (Some(a), Some(b)) = (k[i - 1], k[i]) {
+                if a == b {
+                    c.tie_consec = true;
+                }
+                if !(a < b) {
+                    inc = false;
+                }
+                if !(a > b) {
+                    dec = false;
+                }
+            } else {
+                inc = false;
+                dec = false;
+            }
+            if i >= p.w && k[i].is_none() {
+                let prev = ws[i - 1];
+                if prev.cnt > 0 && prev.pmin == i - p.w {
+                    c.expire_min_null = true;
+                }
+                if prev.cnt > 0 && prev.pmax == i - p.w {
+                    c.expire_max_null = true;
+                }
+            }
+        } else if k[0].is_none() {
+            inc = false;
+            dec = false;
+        }
+        i += 1;
+    }
+    c.mono_inc = inc;
+    c.mono_dec = dec;
+}
+
+// ---------------------------------------------------------------------------------------------
+// kernels
+// ---------------------------------------------------------------------------------------------
+
+/// which part of the arg-extreme law a harness asserts
+#[derive(Clone, Copy, PartialEq)]
+pub enum ArgPart {
+    /// everything except "all-null window with effective min_periods 0"
+    Main,
+    /// only "all-null window with effective min_periods 0 is null"
+    AllNullMp0,
+}
+
+pub fn run_min<T: In, U: Out, const N: usize>(alpha: Alpha, nullable: bool) -> Cov
+where
+    T::Inner: Number,
+    Option<T::Inner>: Cast<U>,
+    Vec<U>: Vec1<U>,
+    Vec<T>: Vec1View<T>,
+{
+    let k = keys::<N>(alpha, nullable);
+    let p = params::<N>(true);
+    let v: Vec<T> = input(&k);
+    let ws = scan_all(&k, p.w);
+    let out: Vec<U> = v.ts_vmin(p.w, p.mp);
+    let mut c = Cov::default();
+    assert!(out.len() == N, "vmin: one output per input");
+    let mut i = 0;
+    while i < N {
+        let wi = ws[i];
+        if wi.cnt < p.eff || wi.cnt == 0 {
+            c.null_out = true;
+            assert!(out[i].null(), "vmin: null iff valid count below min_periods or window has no valid element");
+        } else {
+            c.val_out = true;
+            assert!(out[i].is_int(wi.min), "vmin: equals the least valid element of the window");
+        }
+        i += 1;
+    }
+    witnesses(&k, &p, &ws, &mut c);
+    c
+}
+
+pub fn run_max<T: In, U: Out, const N: usize>(alpha: Alpha, nullable: bool) -> Cov
+where
+    T::Inner: Number,
+    Option<T::Inner>: Cast<U>,
+    Vec<U>: Vec1<U>,
+    Vec<T>: Vec1View<T>,
+{
+    let k = keys::<N>(alpha, nullable);
+    let p = params::<N>(true);
+    let v: Vec<T> = input(&k);
+    let ws = scan_all(&k, p.w);
+    let out: Vec<U> = v.ts_vmax(p.w, p.mp);
+    let mut c = Cov::default();
+    assert!(out.len() == N, "vmax: one output per input");
+    let mut i = 0;
+    while i < N {
+        let wi = ws[i];
+        if wi.cnt < p.eff || wi.cnt == 0 {
+            c.null_out = true;
+            assert!(out[i].null(), "vmax: null iff valid count below min_periods or window has no valid element");
+        } else {
+            c.val_out = true;
+            assert!(out[i].is_int(wi.max), "vmax: equals the greatest valid element of the window");
+        }
+        i += 1;
+    }
+    witnesses(&k, &p, &ws, &mut c);
+    c
+}
+
+pub fn run_arg<T: In, U: Out, const N: usize>(alpha: Alpha, nullable: bool, is_max: bool, part: ArgPart) -> Cov
+where
+    T::Inner: Number,
+    f64: Cast<U>,
+    Vec<U>: Vec1<U>,
+    Vec<T>: Vec1View<T>,
+{
+    let k = keys::<N>(alpha, nullable);
+    let p = params::<N>(true);
+    let v: Vec<T> = input(&k);
+    let ws = scan_all(&k, p.w);
+    let out: Vec<U> = if is_max { v.ts_vargmax(p.w, p.mp) } else { v.ts_vargmin(p.w, p.mp) };
+    let mut c = Cov::default();
+    assert!(out.len() == N, "varg: one output per input");
+    let mut i = 0;
+    while i < N {
+        let wi = ws[i];
+        if wi.cnt == 0 && p.eff == 0 {
+            if part == ArgPart::AllNullMp0 {
+                c.null_out = true;
+                assert!(out[i].null(), "varg: an all-null window has no arg-extreme (null) even with min_periods 0");
+            }
+        } else if part == ArgPart::Main {
+            if wi.cnt < p.eff || wi.cnt == 0 {
+                c.null_out = true;
+                assert!(out[i].null(), "varg: null iff valid count below min_periods or window has no valid element");
+            } else {
+                c.val_out = true;
+                let pos = if is_max { wi.pmax } else { wi.pmin };
+                assert!(
+                    out[i].is_int((pos - wi.start + 1) as i32),
+                    "varg: 1-based offset from the window start of the most recent position holding the extreme"
+                );
+            }
+        }
+        i += 1;
+    }
+    witnesses(&k, &p, &ws, &mut c);
+    c
+}
+
+pub fn run_rank<T: In, U: Out, const N: usize>(alpha: Alpha, nullable: bool) -> Cov
+where
+    T::Inner: Number,
+    f64: Cast<U>,
+    Vec<U>: Vec1<U>,
+    Vec<T>: Vec1View<T>,
+{
+    let k = keys::<N>(alpha, nullable);
+    let p = params::<N>(true);
+    let pct: bool = kani::any();
+    let rev: bool = kani::any();
+    let v: Vec<T> = input(&k);
+    let ws = scan_all(&k, p.w);
+    let out: Vec<U> = v.ts_vrank(p.w, p.mp, pct, rev);
+    let mut c = Cov::default();
+    assert!(out.len() == N, "vrank: one output per input");
+    let mut i = 0;
+    while i < N {
+        let wi = ws[i];
+        if wi.cnt < p.eff || k[i].is_none() {
+            c.null_out = true;
+            assert!(out[i].null(), "vrank: null iff valid count below min_periods or current element null");
+        } else {
+            c.val_out = true;
+            match (rev, pct) {
+                (false, false) => c.asc_abs = true,
+                (false, true) => c.asc_pct = true,
+                (true, false) => c.desc_abs = true,
+                (true, true) => c.desc_pct = true,
+            }
+            if wi.eq > 1 {
+                c.rank_tie = true;
+            }
+            // twice the average rank: ranks less+1 ..= less+eq  ->  2*less + eq + 1
+            let asc2 = 2 * wi.less + wi.eq + 1;
+            let r2 = if rev { 2 * (wi.cnt + 1) - asc2 } else { asc2 };
+            let mut e = r2 as f64 * 0.5;
+            if pct {
+                e = e / wi.cnt as f64;
+            }
+            assert!(out[i].is_f(e), "vrank: average rank of the current element among the valid elements of the window");
+        }
+        i += 1;
+    }
+    witnesses(&k, &p, &ws, &mut c);
+    c
+}
+
+pub fn run_minmaxnorm<T: In, U: Out, const N: usize>(alpha: Alpha, nullable: bool) -> Cov
+where
+    T::Inner: Number,
+    f64: Cast<U>,
+    Vec<U>: Vec1<U>,
+    Vec<T>: Vec1View<T>,
+{
+    let k = keys::<N>(alpha, nullable);
+    let p = params::<N>(false);
+    // ts_vminmaxnorm clamps min_periods to the requested window; explicit m <= w and floor(w/2) <= w already
+    let v: Vec<T> = input(&k);
+    let ws = scan_all(&k, p.w);
+    let out: Vec<U> = v.ts_vminmaxnorm(p.w, p.mp);
+    let mut c = Cov::default();
+    assert!(out.len() == N, "vminmaxnorm: one output per input");
+    let mut i = 0;
+    while i < N {
+        let wi = ws[i];
+        match k[i] {
+            Some(x) if wi.cnt >= p.eff && wi.max != wi.min => {
+                c.val_out = true;
+                // the same f64 expression as the kernel, over the oracle's extremes
+                let e = (x - wi.min) as f64 / (wi.max - wi.min) as f64;
+                assert!(out[i].is_f(e), "vminmaxnorm: (x-min)/(max-min) over the valid elements of the window");
+            },
+            _ => {
+                c.null_out = true;
+                if k[i].is_some() && wi.cnt >= p.eff {
+                    c.spread0 = true;
+                }
+                assert!(out[i].null(), "vminmaxnorm: null iff count below min_periods, x null or max == min");
+            },
+        }
+        i += 1;
+    }
+    witnesses(&k, &p, &ws, &mut c);
+    c
+}
+
+/// Isolated defect: with unconstrained i32 values the kernel itself must not panic. (It does: `v - min` and
+/// `max - min` are formed in the element type.) Only the length is asserted here; the failing check is the
+/// kernel's own "attempt to subtract with overflow".
+pub fn run_minmaxnorm_fullrange<const N: usize>() -> Cov {
+    let k = keys::<N>(Alpha::Any, true);
+    let p = params::<N>(false);
+    let v: Vec<Option<i32>> = input(&k);
+    let out: Vec<f64> = v.ts_vminmaxnorm(p.w, p.mp);
+    let mut c = Cov::default();
+    assert!(out.len() == N, "vminmaxnorm (full i32 range): one output per input");
+    c.val_out = true;
+    c
+}
+
+include!("c03_gen.rs");
